@@ -169,6 +169,14 @@ def conserve_two_suspensions(cap_cpu, cap_ram, ramA, ramB, cpuA, cpuB, dA, dB, d
         r = _inv(pool, cap_cpu, cap_ram, False, f"tick{t}")
         if r:
             return r
+        # independent model of who still holds an allocation after tick t (not read from the pool's own lists): a container
+        # suspended in tick d writes out max(1, ram // 20) ticks counting tick d; the ordinary container ends in tick dC - 1
+        WA = ramA // 20 if ramA // 20 >= 1 else 1
+        WB = ramB // 20 if ramB // 20 >= 1 else 1
+        hold_cpu = (cpuA if t < dA + WA - 1 else 0) + (cpuB if t < dB + WB - 1 else 0) + (1 if t < dC - 1 else 0)
+        hold_ram = (ramA if t < dA + WA - 1 else 0) + (ramB if t < dB + WB - 1 else 0) + (2 if t < dC - 1 else 0)
+        if pool.avail_cpu_pool != cap_cpu - hold_cpu or pool.avail_ram_pool != cap_ram - hold_ram:
+            return "C03:allocation_not_returned_exactly_in_the_tick_the_container_ended"
         if len(pool.suspending_containers) == 2:
             seen.add("both_suspending")
         if pool.suspending_containers and not pool.active_containers:
